@@ -282,17 +282,17 @@ def property_holds(spec, plan, fwd, back):
 
 
 def ends_inside(spec, plan, fwd):
-    """every compiled end action lies inside the duration of an instance of the plan (matched as multisets)"""
-    ends = Counter((t, ai, ps) for (t, (ck, ai), ps, d) in fwd if ck == "end")
-    expect = Counter()
-    for (t, ai, ps, d) in plan:
-        a = spec["acts"][ai]
-        if a["kind"] == "var":
-            te = t + d + a["delay"]
-            if not (t < te <= t + d):
-                return False
-            expect[(te, ai, ps)] += 1
-    return ends == expect
+    """every compiled end action lies inside the duration (start, start+duration] of an instance of the same ground
+    action, and every variable-duration instance has one end action (exact position: correspondence, not property)"""
+    ends = Counter((ai, ps) for (t, (ck, ai), ps, d) in fwd if ck == "end")
+    insts = Counter((ai, ps) for (t, ai, ps, d) in plan if spec["acts"][ai]["kind"] == "var")
+    if ends != insts:
+        return False
+    for (te, (ck, ai), ps, _) in fwd:
+        if ck == "end" and not any(ai == ai2 and ps == ps2 and t < te <= t + d
+                                   for (t, ai2, ps2, d) in plan if d is not None):
+            return False
+    return True
 
 
 def run(ctx):
@@ -413,10 +413,14 @@ def run(ctx):
             raw.append(m)
 
     bad = ctx.coq_failing(cases, "ok", imports=IMPORTS, preamble="".join(preamble), shard=100, ty="case")
+    shown = 0
     for i in bad:
         m = raw[i]
-        model = ctx.coq_show("(model_fwd c, model_back c, model_back_shuf c)", imports=IMPORTS,
-                             preamble="".join(preamble) + "Definition c := %s.\n" % cases[i])
+        model = "(not evaluated: only the first 3 failing cases are re-evaluated)"
+        if shown < 3:
+            shown += 1
+            model = ctx.coq_show("(model_fwd c, model_back c, model_back_shuf c)", imports=IMPORTS,
+                                 preamble="".join(preamble) + "Definition c := %s.\n" % cases[i])
         pf = False
         if m["in_scope"]:
             okp, _ = property_holds(m["spec"], m["plan"], m["fwd"], m["back"])
